@@ -769,10 +769,21 @@ Definition waiting (proc : list nat) (r : nat) : Prop :=
 
 (* the reference map during the cascade: the entries of the start state whose target is not
    processed, plus by-digest entries of manifests that lost their last predecessor *)
+(* by-digest references name their own content (true in every reachable state: refs_ok) *)
+Definition digs_ok0 : Prop := forall d n, In (RDig d, n) (idx st0) -> d = n.
+
+(* d is a manifest of the graph that is not processed, had predecessors, lost all of them and
+   had no by-digest reference: delete() lists it by its digest *)
+Definition rerooted (proc : list nat) (d : nat) : Prop :=
+  manifest d = true /\ In d G /\ ~ In d proc /\ (exists p, In p G /\ In d (succ p)) /\
+  (forall p, In p G -> In d (succ p) -> In p proc) /\ (forall m, ~ In (RDig d, m) (idx st0)).
+
 Definition idx_rel (ix : list (ref * nat)) (proc : list nat) : Prop :=
   (forall e, In e ix -> ~ In (snd e) proc /\
-             (In e (idx st0) \/ exists d, e = (RDig d, d) /\ manifest d = true)) /\
-  (forall e, In e (idx st0) -> ~ In (snd e) proc -> In e ix).
+             (In e (idx st0) \/ exists d, e = (RDig d, d) /\ manifest d = true /\
+                                         (digs_ok0 -> rerooted proc d))) /\
+  (forall e, In e (idx st0) -> ~ In (snd e) proc -> In e ix) /\
+  (digs_ok0 -> forall d, rerooted proc d -> In (RDig d, d) ix).
 
 Record DInv (st : state) (queue seen proc pending : list nat) : Prop := {
   di_seen : seen = proc ++ queue;
@@ -796,7 +807,7 @@ Record DInv (st : state) (queue seen proc pending : list nat) : Prop := {
 Lemma tagged_same st proc y :
   idx_rel (idx st) proc -> ~ In y proc -> is_tagged st y = is_tagged st0 y.
 Proof.
-  intros [H1 H2] Hy. apply eq_true_iff_eq. rewrite !is_tagged_spec.
+  intros [H1 [H2 _]] Hy. apply eq_true_iff_eq. rewrite !is_tagged_spec.
   split; intros (t & [H|H]); exists t.
   - left. destruct (H1 _ H) as [_ [Ho|(d & E & _)]]; [assumption|discriminate].
   - right. destruct (H1 _ H) as [_ [Ho|(d & E & _)]]; [assumption|discriminate].
@@ -877,16 +888,67 @@ Proof.
       { intro y. unfold fresh. rewrite dedup_In, filter_In, ord_perm.
         rewrite negb_true_iff, memb_false. tauto. }
       assert (Hidx' : idx_rel (idx st') (proc ++ [h])).
-      { destruct (di_i _ _ _ _ _ I) as [Hi1 Hi2]. unfold st'. cbn [idx]. split.
-        - intros e He. apply del_idx_In in He as [[He Hne]|(d & -> & Hd & Hm & _)].
-          + destruct (Hi1 e He) as [Hp Ho]. split; [|exact Ho].
-            rewrite in_app_iff. simpl. intros [H|[H|[]]]; [contradiction|congruence].
-          + apply danglings_In in Hd as (_ & Hs & Hg & _). apply (di_g _ _ _ _ _ I) in Hg.
-            apply succ_lt in Hs. split; [|right; eauto].
-            rewrite in_app_iff. simpl. intros [H|[H|[]]]; [tauto|lia].
+      { destruct (di_i _ _ _ _ _ I) as [Hi1 [Hi2 Hi3]]. unfold st'. cbn [idx].
+        assert (Hmono : forall d, rerooted proc d -> d <> h -> rerooted (proc ++ [h]) d).
+        { intros d (A & B0 & C & D & E & F) Hne. repeat split; try assumption.
+          - rewrite in_app_iff. simpl. intros [H|[H|[]]]; [contradiction|congruence].
+          - intros p Hp Hs. apply in_or_app. left. now apply E. }
+        split; [|split].
+        - intros e He. apply del_idx_In in He as [[He Hne]|(d & -> & Hd & Hm & Hl)].
+          + destruct (Hi1 e He) as [Hp Ho]. split.
+            * rewrite in_app_iff. simpl. intros [H|[H|[]]]; [contradiction|congruence].
+            * destruct Ho as [Ho|(d & Ed & Hm & Hr)]; [now left|right]. exists d.
+              split; [exact Ed|split; [exact Hm|]].
+              intro P. apply Hmono; [now apply Hr|]. subst e. exact Hne.
+          + apply danglings_In in Hd as (Hhg & Hs & Hg & Hall). apply (di_g _ _ _ _ _ I) in Hg.
+            apply (di_g _ _ _ _ _ I) in Hhg as [HhG _].
+            pose proof (succ_lt _ _ Hs) as Hlt.
+            assert (Hdp : ~ In d (proc ++ [h])) by (rewrite in_app_iff; simpl; intros [H|[H|[]]]; [tauto|lia]).
+            split; [exact Hdp|]. right. exists d. split; [reflexivity|split; [exact Hm|]].
+            intro P. unfold rerooted. split; [exact Hm|]. split; [tauto|]. split; [exact Hdp|].
+            split; [|split].
+            * exists h. split; assumption.
+            * intros p Hp Hps. destruct (in_dec Nat.eq_dec p proc) as [Hpp|Hpp]; apply in_or_app; [now left|right].
+              left. symmetry. apply Hall; [apply (di_g _ _ _ _ _ I); tauto|assumption].
+            * intros m Hm0. pose proof (P _ _ Hm0). subst m.
+              assert (Hin : In (RDig d, d) (filter (fun e => negb (snd e =? h)) (idx st))).
+              { apply filter_In. split; [apply Hi2; [assumption|cbn; tauto]|].
+                cbn. apply negb_true_iff, Nat.eqb_neq. lia. }
+              clear -Hin Hl. induction (filter _ _) as [|[r k] l IH]; [destruct Hin|].
+              simpl in Hl. destruct (ref_eqb r (RDig d)) eqn:E; [discriminate|].
+              destruct Hin as [Hin|Hin]; [injection Hin as -> ->; simpl in E; rewrite Nat.eqb_refl in E; discriminate|auto].
         - intros e He Hp. apply del_idx_In. left. rewrite in_app_iff in Hp. simpl in Hp. split.
           + apply Hi2; [assumption|]. intro H. apply Hp. now left.
-          + intro H. apply Hp. right. left. congruence. }
+          + intro H. apply Hp. right. left. congruence.
+        - intros P d (A & B0 & C & D & E & F).
+          assert (Hdh : d <> h) by (intro; subst; apply C; apply in_or_app; right; now left).
+          assert (Hdp : ~ In d proc) by (intro H; apply C; apply in_or_app; now left).
+          apply del_idx_In.
+          destruct (in_dec Nat.eq_dec h G) as [HhG|HhG]; [destruct (in_dec Nat.eq_dec d (succ h)) as [Hsh|Hsh]|].
+          + right. exists d. split; [reflexivity|].
+            assert (Hdang : In d (danglings succ (gnodes st) h)).
+            { apply danglings_In. repeat split; try assumption.
+              - apply (di_g _ _ _ _ _ I). tauto.
+              - apply (di_g _ _ _ _ _ I). tauto.
+              - intros p Hp Hps. apply (di_g _ _ _ _ _ I) in Hp as [HpG Hpp].
+                specialize (E p HpG Hps). apply in_app_or in E as [H|[H|[]]]; [tauto|congruence]. }
+            split; [exact Hdang|]. split; [exact A|].
+            destruct (lookup (RDig d) (filter (fun e => negb (snd e =? h)) (idx st))) as [m|] eqn:El; [|reflexivity].
+            exfalso.
+            assert (Hin : In (RDig d, m) (idx st)).
+            { clear -El. induction (idx st) as [|[r k] l IH]; [discriminate|]. simpl in El.
+              destruct (negb (k =? h)); [|right; auto]. simpl in El.
+              destruct (ref_eqb r (RDig d)) eqn:E; [|right; auto].
+              apply ref_eqb_eq in E. injection El as <-. subst. now left. }
+            destruct (Hi1 _ Hin) as [_ [Ho|(d' & Ed & _ & Hr)]]; [exact (F m Ho)|].
+            injection Ed as <- <-. destruct (Hr P) as (_ & _ & _ & _ & E' & _).
+            apply Hh_proc. now apply E'.
+          + left. split; [|cbn; assumption]. apply Hi3; [assumption|]. repeat split; try assumption.
+            intros p Hp Hps. specialize (E p Hp Hps). apply in_app_or in E as [H|[H|[]]]; [assumption|].
+            subst. contradiction.
+          + left. split; [|cbn; assumption]. apply Hi3; [assumption|]. repeat split; try assumption.
+            intros p Hp Hps. specialize (E p Hp Hps). apply in_app_or in E as [H|[H|[]]]; [assumption|].
+            subst. contradiction. }
       assert (Hrefs : forall r, In r refs <->
                 manifest h = true /\ In r (gnodes st) /\ subject r = Some h /\ is_tagged st0 r = false).
       { intro r. unfold refs. destruct (manifest h).
@@ -1030,7 +1092,8 @@ Proof.
   - now left.
   - tauto.
   - tauto.
-  - split; [intros e He; split; [tauto|now left]|intros e He _; exact He].
+  - split; [intros e He; split; [tauto|now left]|split; [intros e He _; exact He|]].
+    intros _ d (_ & _ & _ & (p & Hp & Hs) & E & _). destruct (E p Hp Hs).
   - assumption.
   - intros y [<-|[]]. constructor.
   - intros y [<-|[]]. now left.
@@ -1064,25 +1127,35 @@ Lemma delete_exact_sec :
     ((forall e, In e (idx st') -> ~ Gone (snd e) /\
         (In e (idx st0) \/ exists d, e = (RDig d, d) /\ manifest d = true)) /\
      (forall e, In e (idx st0) -> ~ Gone (snd e) -> In e (idx st'))) /\
-    strays st' = strays st0 /\ autogc st' = autogc st0.
+    strays st' = strays st0 /\ autogc st' = autogc st0 /\
+    (* exactly which references are new, when by-digest references name their own content *)
+    (digs_ok0 -> forall d, ~ In (RDig d, d) (idx st0) ->
+       (In (RDig d, d) (idx st') <->
+        manifest d = true /\ In d G /\ ~ Gone d /\ (exists p, In p G /\ In d (succ p)) /\
+        (forall p, In p G -> In d (succ p) -> Gone p) /\ (forall m, ~ In (RDig d, m) (idx st0)))).
 Proof.
   unfold delete. cbn [fixF4 cfg_fixed]. unfold delete_fuel.
   destruct (delete_loop_spec (S (S (length (gnodes st0)))) 0 st0 [x] [x] [] [] DInv_init)
     as (st' & proc & pend & Hd & I).
   { simpl. fold G. lia. }
   exists st'. split; [exact Hd|].
-  pose proof (final_gone st' proc pend I) as HG. repeat split.
-  - apply (di_b _ _ _ _ _ I) in H. tauto.
-  - apply (di_b _ _ _ _ _ I) in H as [_ H]. now rewrite <- HG.
-  - intros [H1 H2]. apply (di_b _ _ _ _ _ I). rewrite HG. tauto.
-  - apply (di_g _ _ _ _ _ I) in H. tauto.
-  - apply (di_g _ _ _ _ _ I) in H as [_ H]. now rewrite <- HG.
-  - intros [H1 H2]. apply (di_g _ _ _ _ _ I). rewrite HG. tauto.
-  - rewrite <- HG. now apply (proj1 (di_i _ _ _ _ _ I)) in H.
-  - now apply (proj1 (di_i _ _ _ _ _ I)) in H.
-  - intros e He Hn. apply (proj2 (di_i _ _ _ _ _ I)); [assumption|]. now rewrite HG.
+  pose proof (final_gone st' proc pend I) as HG.
+  destruct (di_i _ _ _ _ _ I) as [Hi1 [Hi2 Hi3]].
+  split; [|split; [|split; [split|split; [|split]]]].
+  - intro y. rewrite (di_b _ _ _ _ _ I), HG. tauto.
+  - intro y. rewrite (di_g _ _ _ _ _ I), HG. tauto.
+  - intros e He. destruct (Hi1 e He) as [Hp [Ho|(d & E & Hm & _)]]; (split; [now rewrite <- HG|]); [now left|right; eauto].
+  - intros e He Hn. apply Hi2; [assumption|]. now rewrite HG.
   - apply (di_s _ _ _ _ _ I).
   - rewrite (di_a _ _ _ _ _ I). now rewrite auto_on.
+  - intros P d Hnot. split.
+    + intro Hin. destruct (Hi1 _ Hin) as [_ [Ho|(d' & E & _ & Hr)]]; [contradiction|].
+      injection E as <-. destruct (Hr P) as (A & B0 & C & D & E' & F).
+      split; [exact A|]. split; [exact B0|]. split; [now rewrite <- HG|]. split; [exact D|].
+      split; [|exact F]. intros p Hp Hs. apply HG. now apply E'.
+    + intros (A & B0 & C & D & E' & F). apply (Hi3 P).
+      split; [exact A|]. split; [exact B0|]. split; [now rewrite HG|]. split; [exact D|].
+      split; [|exact F]. intros p Hp Hs. apply HG. now apply E'.
 Qed.
 
 (* what the cascade never touches *)
@@ -2037,17 +2110,24 @@ Lemma delete_exact_final : forall succ subject manifest,
     (forall r n, In (r, n) (idx st) -> ~ Gone succ subject manifest st x n -> In (r, n) (idx st')) /\
     (forall t n, In (RTag t, n) (idx st') <-> In (RTag t, n) (idx st) /\ n <> x) /\
     (forall r, ~ In (r, x) (idx st')) /\
-    strays st' = strays st /\ autogc st' = autogc st.
+    strays st' = strays st /\ autogc st' = autogc st /\
+    ((forall d n, In (RDig d, n) (idx st) -> d = n) ->
+     forall d, ~ In (RDig d, d) (idx st) ->
+       (In (RDig d, d) (idx st') <->
+        manifest d = true /\ In d (gnodes st) /\ ~ Gone succ subject manifest st x d /\
+        (exists p, In p (gnodes st) /\ In d (succ p)) /\
+        (forall p, In p (gnodes st) -> In d (succ p) -> Gone succ subject manifest st x p) /\
+        (forall m, ~ In (RDig d, m) (idx st)))).
 Proof.
   intros succ subject manifest H1 H2 st x Hw Ha Hx ord Ho.
   destruct (delete_exact_sec succ subject manifest H1 H2 st x Hw Ha Hx ord Ho)
-    as (st' & Hd & A & B & [C1 C2] & D & E).
+    as (st' & Hd & A & B & [C1 C2] & D & E & N).
   assert (Htag : forall t n, In (RTag t, n) (idx st) -> n <> x -> ~ Gone succ subject manifest st x n).
   { intros t n Ht Hn HG.
     pose proof (gone_untagged succ subject manifest st x n HG Hn) as Hf.
     assert (Ht' : is_tagged st n = true) by (apply is_tagged_spec; eauto). congruence. }
   exists st'. split; [exact Hd|]. split; [exact A|]. split; [exact B|].
-  split; [|split; [|split; [|split; [|split; [exact D|exact E]]]]].
+  split; [|split; [|split; [|split; [|split; [exact D|split; [exact E|exact N]]]]]].
   - intros r n H. destruct (C1 (r, n) H) as [Hg [Ho'|(d & Ed & Hm)]]; (split; [exact Hg|]).
     + now left.
     + right. injection Ed as -> ->. split; [reflexivity|assumption].
